@@ -268,3 +268,56 @@ pub fn parse_f64_tokens(toks: &[String]) -> Result<Vec<f64>, String> {
         .map(|t| t.parse::<f64>().map_err(|e| format!("bad value '{t}': {e}")))
         .collect()
 }
+
+/// Runs `sfs` with stdin connected to a real pipe; `chunks` are written one `write` call each,
+/// with `delay_ms` between them (arrival timing is then OS-dependent: confirmation only).
+pub fn run_sfs_piped(args: &[&str], chunks: &[&[u8]], delay_ms: u64, scratch: &Scratch) -> Out {
+    let mut cmd = Command::new(SFS_BIN);
+    cmd.args(args)
+        .env_clear()
+        .env("SFS_ALLOW_STDIN", "1")
+        .env("RUST_BACKTRACE", "0")
+        .current_dir(&scratch.dir)
+        .stdin(Stdio::piped())
+        .stdout(Stdio::piped())
+        .stderr(Stdio::piped());
+    // SAFETY: only async-signal-safe libc calls between fork and exec.
+    unsafe {
+        cmd.pre_exec(|| {
+            libc::alarm(60);
+            Ok(())
+        });
+    }
+    let mut child = match cmd.spawn() {
+        Ok(c) => c,
+        Err(e) => {
+            eprintln!("ENGINE: cannot run {SFS_BIN}: {e}");
+            std::process::exit(2);
+        }
+    };
+    let mut stdin = child.stdin.take().expect("piped stdin");
+    let owned: Vec<Vec<u8>> = chunks.iter().map(|c| c.to_vec()).collect();
+    let writer = std::thread::spawn(move || {
+        for (i, c) in owned.iter().enumerate() {
+            if i > 0 {
+                std::thread::sleep(std::time::Duration::from_millis(delay_ms));
+            }
+            if c.is_empty() {
+                continue;
+            }
+            if stdin.write_all(c).is_err() {
+                break;
+            }
+            let _ = stdin.flush();
+        }
+        drop(stdin);
+    });
+    let out = child.wait_with_output().expect("wait for sfs");
+    let _ = writer.join();
+    Out {
+        code: out.status.code(),
+        signal: out.status.signal(),
+        stdout: out.stdout,
+        stderr: out.stderr,
+    }
+}
